@@ -146,9 +146,39 @@ func c19(c *Ctx) {
 		}
 		c.Expect(nReset == 1 && nInc == 1, nil, f, "exponent-updates", "expected one reset (pushback) and one increment (computed backoff) of the backoff exponent")
 		// the timer runs for pushback ms when given
-		nt := one(c, "retry backoff timer", callsIn(f, CalleeX("time", "NewTimer")))
+		// the delay is the argument of the timer, started in shouldRetry itself or in a helper of the same package
+		// that starts the timer with one of its own parameters
+		type delay struct {
+			at ssa.CallInstruction
+			v  ssa.Value
+		}
+		var delays []delay
+		for _, ci := range callsIn(f, CalleeX("time", "NewTimer")) {
+			delays = append(delays, delay{ci, ci.Common().Args[0]})
+		}
+		for _, b := range f.Blocks {
+			for _, in := range b.Instrs {
+				call, ok := in.(*ssa.Call)
+				if !ok {
+					continue
+				}
+				g := call.Call.StaticCallee()
+				if g == nil || g.Pkg != f.Pkg || len(g.Blocks) == 0 {
+					continue
+				}
+				for _, ti := range callsIn(g, CalleeX("time", "NewTimer")) {
+					for i, gp := range g.Params {
+						if stripConv(ti.Common().Args[0]) == ssa.Value(gp) && i < len(call.Call.Args) {
+							delays = append(delays, delay{call, call.Call.Args[i]})
+						}
+					}
+				}
+			}
+		}
+		ntd := one(c, "retry backoff timer", delays)
+		nt := ntd.at
 		okPB := false
-		for _, lf := range phiLeaves(nt.Common().Args[0]) {
+		for _, lf := range phiLeaves(ntd.v) {
 			if DataDep(CallRes(atoi, 0))(lf.Val) {
 				okPB = true
 			}
